@@ -593,6 +593,7 @@ pub fn run(ctx: &Ctx, rep: &Report) -> Meta {
         assumptions: vec![
             "update_signature's n is the signer's own message count: only 0..=64 and usize::MAX are generated (work proportional to n is the documented behaviour)".into(),
             "harness built with overflow-checks = on for the zkryptium crate".into(),
+            "a `log` logger that accepts and formats every record up to Trace level is installed for the whole process (what an application with env_logger and RUST_LOG=trace does); VERIF_LOG=off leaves the facade disabled".into(),
         ],
     }
 }
